@@ -2,6 +2,7 @@
 package main
 
 import (
+	"verif.local/harness/hx"
 	"flag"
 	"fmt"
 	"os"
@@ -23,6 +24,10 @@ func main() {
 	db := flag.Int("d", 1, "deviation bound for -scenario")
 	por := flag.Bool("por", false, "sleep sets for -scenario")
 	flag.Parse()
+	if !*worker {
+		os.Setenv("VERIF_DIR", *dir) // inherited by the worker processes
+		hx.VerifDir = *dir
+	}
 	if *enum != "" {
 		self, _ := os.Executable()
 		props.DebugEnum(*enum, *tier, self)
